@@ -1313,3 +1313,17 @@ benign('benign-c09-entry-api', 'C09', 'crates/edp_client/src/fragmentation.rs', 
                 .and_then(FragmentedMessage::reassemble);
         }
         None""")
+canary('c07-dist-hdr-flag-bit', 'C07', 'crates/edp_client/src/flags.rs', "const DIST_HDR_ATOM_CACHE = 0x2000;", "const DIST_HDR_ATOM_CACHE = 0x1000;", 'CONST:edp_client::flags::DistributionFlags::DIST_HDR_ATOM_CACHE')
+canary('c04-dist-hdr-flag-bit', 'C04', 'crates/edp_client/src/flags.rs', "const DIST_HDR_ATOM_CACHE = 0x2000;", "const DIST_HDR_ATOM_CACHE = 0x1000;", 'CONST:edp_client::flags::DistributionFlags::DIST_HDR_ATOM_CACHE')
+benign('benign-c04-flag-literal-spelling', 'C04', 'crates/edp_client/src/flags.rs', "const DIST_HDR_ATOM_CACHE = 0x2000;", "const DIST_HDR_ATOM_CACHE = 1 << 13;")
+canary('c08-tag-space-halfopen', 'C08', 'crates/edp_client/src/control.rs', "if !(0..=255).contains(&msg_type_raw) {", "if !(0..255).contains(&msg_type_raw) {", 'tag-space')
+benign('benign-c08-tag-range-compare', 'C08', 'crates/edp_client/src/control.rs', "if !(0..=255).contains(&msg_type_raw) {", "if msg_type_raw < 0 || msg_type_raw > 255 {")
+benign('benign-c08-tag-tryfrom', 'C08', 'crates/edp_client/src/control.rs', """        if !(0..=255).contains(&msg_type_raw) {
+            return Err(Error::InvalidControlMessage(format!(
+                "Message type out of range: {}",
+                msg_type_raw
+            )));
+        }
+        let msg_type = msg_type_raw as u8;""", """        let msg_type = u8::try_from(msg_type_raw).map_err(|_| {
+            Error::InvalidControlMessage(format!("Message type out of range: {}", msg_type_raw))
+        })?;""")
